@@ -105,6 +105,22 @@ func tsDocs() []Doc {
 	return []Doc{{"ts-french-3", "ts", fr, true}, {"ts-german-serial-2", "ts", de, true}, {"ts-english-1", "ts", en, true}}
 }
 
+const ssaV4Plus = "[Script Info]\nTitle: t\nScriptType: v4.00+\nWrapStyle: 0\nPlayResX: 640\nPlayResY: 480\nTimer: 100.0000\n\n[V4+ Styles]\nFormat: Name, Fontname, Fontsize, PrimaryColour, SecondaryColour, OutlineColour, BackColour, Bold, Italic, Underline, StrikeOut, ScaleX, ScaleY, Spacing, Angle, BorderStyle, Outline, Shadow, Alignment, MarginL, MarginR, MarginV, Encoding\nStyle: Default,Arial,20,&H00FFFFFF,&H000000FF,&H80000000,&H00000000,-1,0,0,0,100,100,0,0,1,2,2,2,10,10,10,1\n\n[Events]\nFormat: Layer, Start, End, Style, Name, MarginL, MarginR, MarginV, Effect, Text\nDialogue: 1,0:00:01.00,0:00:02.50,Default,Bob,0,0,0,,{\\an8}{\\i1}top{\\i0} plain\\Nsecond, line\nDialogue: 0,1:00:03.00,1:00:04.00,Default,,1,2,3,fx,last\n"
+
+// stlTCP: a 30 fps open-subtitling file with a programme start timecode of 10:00:00:00 (the reader subtracts it)
+func stlTCP() []byte {
+	s := astisub.NewSubtitles()
+	d := time.Date(2020, 1, 2, 0, 0, 0, 0, time.UTC)
+	s.Metadata = &astisub.Metadata{Framerate: 30, STLDisplayStandardCode: "0", STLCreationDate: &d, STLRevisionDate: &d, STLTimecodeStartOfProgramme: 10 * time.Hour, Title: "tcp"}
+	for i := 0; i < 2; i++ {
+		s.Items = append(s.Items, &astisub.Item{StartAt: time.Duration(i+1) * time.Second, EndAt: time.Duration(i+1)*time.Second + 500*time.Millisecond,
+			Lines: []astisub.Line{{Items: []astisub.LineItem{{Text: fmt.Sprintf("tcp cue %d", i)}}}}})
+	}
+	var b bytes.Buffer
+	s.WriteToSTL(&b)
+	return b.Bytes()
+}
+
 var extra []Doc // registered by other packages (e.g. transport streams from the teletext encoder)
 
 // Register adds documents (used for .ts samples built by ref/teletext).
@@ -130,6 +146,7 @@ func Small() []Doc {
 		{"ssa-small", "ssa", []byte(ssaSmall), true},
 		{"ssa-crlf", "ssa", []byte(crlf(ssaSmall)), true},
 		{"ssa-cr", "ssa", []byte(cr(ssaSmall)), true},
+		{"ssa-v4plus", "ssa", []byte(ssaV4Plus), true},
 		{"ssa-bad-int", "ssa", []byte("[Script Info]\nPlayResX: abc\n"), false},
 		{"ttml-small", "ttml", []byte(ttmlSmall), true},
 		{"ttml-crlf", "ttml", []byte(crlf(ttmlSmall)), true},
@@ -140,6 +157,7 @@ func Small() []Doc {
 		{"stl-open-25-2", "stl", writeSTL("0", 25, 2), true},
 		{"stl-open-30-1", "stl", writeSTL("0", 30, 1), true},
 		{"stl-teletext-25-3", "stl", writeSTL("1", 25, 3), true},
+		{"stl-open-30-tcp10h", "stl", stlTCP(), true},
 		{"stl-gsi-only", "stl", writeSTL("0", 25, 0), true},
 		{"stl-truncated-tti", "stl", writeSTL("0", 25, 2)[:1024+128+60], false},
 	}
